@@ -68,7 +68,7 @@ def run_in_process(mod, ctx: Ctx):
             def make(fn, kname):
                 def rec(c, *a, **k):
                     n = per_kind.get(kname, 0)
-                    if n < 25 and c is ctx:
+                    if n < getattr(mod, "REVISIT_PER_KIND", 25) and c is ctx:
                         per_kind[kname] = n + 1
                         recorded.append((fn, a, k))
                     return fn(c, *a, **k)
